@@ -558,54 +558,82 @@ func (e *Engine) headerText(from, to token.Pos) string {
 	return strings.Join(strings.Fields(string(data[pf.Offset:pt.Offset])), " ")
 }
 
+type badAnchor struct {
+	name  string
+	props []string
+	where string
+}
+
 // bindLoopSpecs attaches loop contracts to the loops of f; returns anchors that failed to resolve.
-func (e *Engine) bindLoopSpecs(f *ssa.Function, spec *FuncSpec) []string {
+func (e *Engine) bindLoopSpecs(f *ssa.Function, spec *FuncSpec) []badAnchor {
 	loops := e.loopsOf(f)
 	for _, l := range loops {
 		l.Spec = nil
 	}
-	var bad []string
+	var bad []badAnchor
 	if spec == nil {
 		return nil
 	}
 	for _, ls := range spec.Loops {
 		var hit *Loop
+		// alternatives "A | B": the first selector that resolves wins (e.g. a label, else the header text)
+		for _, sel := range strings.Split(ls.Selector, " | ") {
+			sel = strings.TrimSpace(sel)
+			hit = matchLoopSelector(loops, sel)
+			if hit != nil && hit.Spec == nil {
+				break
+			}
+			hit = nil
+		}
 		sel := ls.Selector
-		occ := 1
-		if k := strings.LastIndex(sel, `"@`); k > 0 {
-			if n, err := strconv.Atoi(sel[k+2:]); err == nil {
-				occ = n
-				sel = sel[:k+1]
-			}
-		}
-		seenText := 0
-		for _, l := range loops {
-			switch {
-			case strings.HasPrefix(sel, "#"):
-				if n, err := strconv.Atoi(sel[1:]); err == nil && l.Ordinal == n {
-					hit = l
-				}
-			case strings.HasPrefix(sel, `"`):
-				t, _ := strconv.Unquote(sel)
-				want := strings.Join(strings.Fields(t), " ")
-				// a trailing "..." makes the selector a prefix of the loop header (robust against edits of the tail)
-				if t != "" && (l.Text == want || (strings.HasSuffix(want, "...") && strings.HasPrefix(l.Text, strings.TrimSuffix(want, "...")))) {
-					seenText++
-					if seenText == occ {
-						hit = l
-					}
-				}
-			default:
-				if l.Label == sel {
-					hit = l
-				}
-			}
-		}
 		if hit == nil || hit.Spec != nil {
-			bad = append(bad, fmt.Sprintf("%s/loop %s", spec.Name, sel))
+			// the failed anchor counts for every property any clause of the orphaned loop contract serves
+			props := append([]string(nil), spec.Props...)
+			for _, c := range append(append([]*Clause(nil), ls.Invariants...), ls.Steps...) {
+				props = unionProps(props, c.Props)
+			}
+			if ls.Decreases != nil {
+				props = unionProps(props, append([]string{"C19"}, ls.Decreases.Props...))
+			}
+			bad = append(bad, badAnchor{fmt.Sprintf("%s/loop %s", spec.Name, sel), props, ls.Where})
 			continue
 		}
 		hit.Spec = ls
 	}
 	return bad
+}
+
+func matchLoopSelector(loops []*Loop, sel string) *Loop {
+	var hit *Loop
+	occ := 1
+	if k := strings.LastIndex(sel, `"@`); k > 0 {
+		if n, err := strconv.Atoi(sel[k+2:]); err == nil {
+			occ = n
+			sel = sel[:k+1]
+		}
+	}
+	seenText := 0
+	for _, l := range loops {
+		switch {
+		case strings.HasPrefix(sel, "#"):
+			if n, err := strconv.Atoi(sel[1:]); err == nil && l.Ordinal == n {
+				hit = l
+			}
+		case strings.HasPrefix(sel, `"`):
+			t, _ := strconv.Unquote(sel)
+			want := strings.Join(strings.Fields(t), " ")
+			// a trailing "..." makes the selector a prefix of the loop header (robust against edits of the tail)
+			if t != "" && (l.Text == want || (strings.HasSuffix(want, "...") && strings.HasPrefix(l.Text, strings.TrimSuffix(want, "...")))) {
+				seenText++
+				if seenText == occ {
+					hit = l
+				}
+			}
+		default:
+			if l.Label == sel {
+				hit = l
+			}
+		}
+	}
+	return hit
 }
